@@ -28,17 +28,18 @@ def case(name, when=OTHERWISE, returns=None, raises=None, ensures=(), returns_pr
 
 
 class LoopSpec:
-    def __init__(self, invariant=(), index=None, modifies=(), locals_=None, decreases=None, unroll=False):
+    def __init__(self, invariant=(), index=None, modifies=(), locals_=None, decreases=None, unroll=False, unroll_max=0):
         self.invariant = list(invariant)
         self.index = index
         self.modifies = list(modifies)
         self.locals = dict(locals_ or {})
         self.decreases = decreases
         self.unroll = unroll
+        self.unroll_max = unroll_max   # execute at most k iterations concretely; obligation: the sequence has <= k items
 
 
-def loop(invariant=(), index=None, modifies=(), locals=None, decreases=None, unroll=False):
-    return LoopSpec(invariant, index, modifies, locals, decreases, unroll)
+def loop(invariant=(), index=None, modifies=(), locals=None, decreases=None, unroll=False, unroll_max=0):
+    return LoopSpec(invariant, index, modifies, locals, decreases, unroll, unroll_max)
 
 
 class Contract:
@@ -46,7 +47,7 @@ class Contract:
                  modifies=(), loops=None, inline=False, guarded_by=None, returns_kind=None,
                  ghost=None, props=(), pure=False, locals=None, trusted=False, note="",
                  allow_raise=(), fresh_result=False, setup=None, verify=True, assume_after=None, no_self_inline=False, variant=None,
-                 lemma_src=None, lemma_module=None):
+                 lemma_src=None, lemma_module=None, inline_callees=None):
         self.file = file
         self.qualname = qualname
         self.types = dict(types or {})
@@ -72,6 +73,9 @@ class Contract:
         self.variant = variant            # several contracts for one function (e.g. per dispatch class)
         self.lemma_src = lemma_src        # a lemma: a small program over contracts (asserts are obligations)
         self.lemma_module = lemma_module
+        # {callee qualname: {loop ordinal: LoopSpec}}: callees inlined (mechanically, from their real source) at this
+        # function's call sites instead of being replaced by their contracts, with call-site specific loop specs
+        self.inline_callees = dict(inline_callees or {})
         # {local variable: clause}: ASSUMED right after each assignment to that local (listed as an
         # assumption in evidence), e.g. 'a fresh uuid never collides with an existing study name'
         self.assume_after = dict(assume_after or {})
